@@ -11,7 +11,8 @@ explicit failure branch.  Proved: on every input the modelled function ends in a
     `assert` at the end of the operator chain, `Previous(None, …)` / `BooleanFormula("&", None, …)` of unary
     sequence operators and `args[-1]` on an empty list are unreachable
   * `create_path` / `create_dynamic_formula` (every `&del` term gringo can produce with the `#theory del` table) and
-    `translate_elements` on top of them; the head `create_formula` (theory/head.py)
+    `translate_elements` on top of them (an element without a term never reaches its `terms[0]`:
+    `element_without_term_rejected`); the head `create_formula` (theory/head.py)
   * `TheoryParser.parse` (transformers/head.py) on every non-empty unparsed term of the shape clingo's grammar
     produces, with any operator table: the stack never underflows, `__check` never looks up a missing
     operator, the fuel of the model's loops suffices (termination)
@@ -24,6 +25,7 @@ PARTIAL: the AST rewriting of `transformers/` (other than `__get_param` and `The
 real code only.
 -/
 import TelProofs.NoInternal
+import TelProofs.TermConvProofs
 import TelProofs.Props.C08
 
 namespace TelProofs.C15
@@ -53,6 +55,16 @@ theorem no_internal_elements (els : List TElem) (dynamic : Bool)
     (hok : ∀ e ∈ els, gringoOK (if dynamic then delTable else bodyTable) e.term = true) :
     NoInternal (translateElements els dynamic) :=
   translateElements_noInternal els dynamic hok
+
+/-- `translate_elements` reads `element.terms[0]` of every element: an element without a term is stopped before, by the
+    RuntimeError of `visit_TheoryAtom` (E13, regenerated from the source) — for `&tel` and for `&del` -/
+theorem element_without_term_rejected :
+    telElemRejected 0 = true ∧ delElemRejected 0 = true := by
+  constructor <;> decide
+
+/-- `theory_term_to_term` (transformers/head.py), any operator table: a value or the RuntimeError "invalid term" -/
+theorem no_internal_term_conversion (tbl : List OpEntry) (t : HTerm) : NoInternal (convTerm tbl t) :=
+  convTerm_noInternal tbl t
 
 /-- head formulas (`&__tel_head` atoms are declared with the body term table) -/
 theorem no_internal_head_formula (t : TTerm) (hok : gringoOK bodyTable t = true) : NoInternal (hCreateFormula t) :=
